@@ -15,9 +15,11 @@ import (
 	"crypto/x509"
 	"encoding/json"
 	"encoding/pem"
+	"fmt"
 	"os"
 	"path/filepath"
 	"sync"
+	"time"
 
 	"go.step.sm/crypto/jose"
 	"go.step.sm/crypto/minica"
@@ -35,7 +37,7 @@ import (
 var realMu sync.Mutex
 
 func newRealEnv(k *Case) (*Env, error) {
-	e := &Env{rec: &Recorder{}, extra: map[string]any{}}
+	e := &Env{rec: &Recorder{}, extra: map[string]any{}, noJTI: k.Tok == "nojti"}
 	dir, err := os.MkdirTemp("", "verif-c17-real-")
 	if err != nil {
 		return nil, err
@@ -96,16 +98,21 @@ func newRealEnv(k *Case) (*Env, error) {
 	if k.CRL {
 		cfg.CRL = &config.CRLConfig{Enabled: true, GenerateOnRevoke: true}
 	}
-	adb, err := db.New(cfg.DB)
-	if err != nil {
-		return fail(err)
+	var d *db.DB
+	if k.NoDB { // no "db" section: the authority keeps the used tokens in memory (db.SimpleDB)
+		cfg.DB = nil
+	} else {
+		adb, err := db.New(cfg.DB)
+		if err != nil {
+			return fail(err)
+		}
+		var ok bool
+		if d, ok = adb.(*db.DB); !ok {
+			return fail(os.ErrInvalid)
+		}
+		e.fdb = &faultDB{DB: d.DB, rec: e.rec}
+		d.DB = e.fdb
 	}
-	d, ok := adb.(*db.DB)
-	if !ok {
-		return fail(os.ErrInvalid)
-	}
-	e.fdb = &faultDB{DB: d.DB, rec: e.rec}
-	d.DB = e.fdb
 	soft, err := softcas.New(context.Background(), apiv1.Options{CertificateChain: []*x509.Certificate{mca.Intermediate}, Signer: mca.Signer})
 	if err != nil {
 		return fail(err)
@@ -119,14 +126,59 @@ func newRealEnv(k *Case) (*Env, error) {
 		os.Stderr = null
 		defer func() { os.Stderr = saved }()
 	}
-	real, err := ca.New(cfg, ca.WithQuiet(true), ca.WithDatabase(d), ca.WithX509CAService(&faultCAS{SoftCAS: soft, rec: e.rec}))
+	// the configuration also goes to disk: CA.Reload reads it from there
+	cfgFile := filepath.Join(dir, "ca.json")
+	if err := cfg.Save(cfgFile); err != nil {
+		return fail(err)
+	}
+	opts := []ca.Option{ca.WithQuiet(true), ca.WithConfigFile(cfgFile), ca.WithX509CAService(&faultCAS{SoftCAS: soft, rec: e.rec})}
+	if d != nil {
+		opts = append(opts, ca.WithDatabase(d))
+	}
+	real, err := ca.New(cfg, opts...)
 	if err != nil {
 		return fail(err)
 	}
+	// the servers run (CA.Reload hands the listening socket over to the new server); requests are
+	// still served in process through the handler
+	go real.Run()
 	e.closer = append(e.closer, func() { real.Stop() })
 	e.handler, e.base = real.VerifHandler()
 	e.ca = &fixture.CA{Auth: real.VerifAuthority(), MiniCA: mca, JWK: jwk, JWKProv: jwkProv,
-		SSHUser: crypto.Signer(sshU), SSHHost: crypto.Signer(sshH), DB: d}
+		SSHUser: crypto.Signer(sshU), SSHHost: crypto.Signer(sshH)}
+	if d != nil {
+		e.ca.DB = d
+	}
 	e.real = true
+	// reload: what SIGHUP does. The listener appears a moment after Run was started; until then
+	// Reload cannot copy it (it panics on the missing listener), so it is simply tried again —
+	// only the waiting depends on time, the outcome does not.
+	e.reload = func() error {
+		realMu.Lock()
+		defer realMu.Unlock()
+		if null, err := os.OpenFile(os.DevNull, os.O_WRONLY, 0); err == nil {
+			saved := os.Stderr
+			os.Stderr = null
+			defer func() { os.Stderr = saved }()
+		}
+		var err error
+		for i := 0; i < 9000; i++ { // up to three minutes on a crowded machine
+			err = func() (err error) {
+				defer func() {
+					if r := recover(); r != nil {
+						err = fmt.Errorf("reload: %v", r)
+					}
+				}()
+				return real.Reload()
+			}()
+			if err == nil {
+				e.handler, e.base = real.VerifHandler()
+				e.ca.Auth = real.VerifAuthority()
+				return nil
+			}
+			time.Sleep(20 * time.Millisecond)
+		}
+		return err
+	}
 	return e, nil
 }
